@@ -27,7 +27,7 @@ RULE = ("per run a history of 3-9 operations over up to 3 BEC2 files sharing a p
 REAL = ["bec2format.bec2file", "bec2format.bf3file", "bec2format.crypto", "register_crypto_plugin", "pyaes", "ecdsa"]
 STUBS = ["medium: SimFS", "RNG: SimRng (never repeats, logs call-site class)", "key-generation observer",
          "device model: RefAES/RefCRC/RefP256"]
-PROBES = ["keyless-constructor", "repeated-write-same-object", "rewrite-with-opaque-block", "splice-different-keys",
+PROBES = ["bf3-object-shared-between-files", "splice-insert-same-tag", "keyless-constructor", "repeated-write-same-object", "rewrite-with-opaque-block", "splice-different-keys",
           "splice-equal-keys", "splice-rejected", "ecc-default-recipient-unwrapped", "three-blocks-unwrapped",
           "two-files-distinct-keys", "ephemeral-points-compared"]
 ASSUMPTIONS = ["'rejected' for a spliced header means: read with decryptors for both blocks raises"]
@@ -40,6 +40,7 @@ def _pool(w):
         {"t": "ecc", "sel": w.randrange(4), "recip": None},
         {"t": "upd", "code": rbytes(w, 8).hex(), "ver": w.randrange(256)},
     ]
+    pool.append({"t": "ecc", "sel": (pool[1]["sel"] + w.choice([1, 2, 3])) % 4, "recip": prov.scalar_spec(w)})
     return pool
 
 
@@ -56,7 +57,7 @@ def gen(st, tier):
         r = w.random()
         if not files_ or (r < 0.25 and len(files_) < 3):
             f = len(files_)
-            kinds = [0, w.choice([1, 2]), 3]
+            kinds = [0, w.choice([1, 2, 4]), 3]
             w.shuffle(kinds)
             blocks = kinds[: w.choice([1, 2, 2, 3])]
             key = None if w.random() < 0.6 else (shared_key if w.random() < 0.6 else G.session_key_spec(w, False))
@@ -69,7 +70,8 @@ def gen(st, tier):
             ops.append(["write", f, "f%d.bec2" % f])
         elif r < 0.50:
             f = w.choice(list(files_))
-            cand = [b for b in (0, 1, 2, 3) if b not in files_[f] and not (b in (1, 2) and (1 in files_[f] or 2 in files_[f]))]
+            cand = [b for b in (0, 1, 2, 3, 4) if b not in files_[f]
+                    and not (b in (1, 2, 4) and any(x in files_[f] for x in (1, 2, 4)))]
             if cand:
                 b = w.choice(cand)
                 files_[f] = files_[f] + [b]
@@ -85,13 +87,20 @@ def gen(st, tier):
                 ops.append(["read", n, sub])
                 if w.random() < 0.6:
                     ops.append(["rewrite", n, "r%d.bec2" % f])
-        else:
+        elif r < 0.88:
             if len(files_) >= 2:
                 fa, fb = w.sample(list(files_), 2)
                 common = [b for b in files_[fa] if b in files_[fb] and b != 2]
                 if common:
                     ops.append(["splice", "f%d.bec2" % fa, "f%d.bec2" % fb, w.choice(common)])
-    return {"pool": pool, "objs": objs, "ops": ops, "rng": w.getrandbits(32)}
+        else:
+            if len(files_) >= 2:
+                fa, fb = w.sample(list(files_), 2)
+                cand = [b for b in files_[fa] if b != 2]
+                if cand and any(b != 2 for b in files_[fb]):
+                    ops.append(["splice_insert", "f%d.bec2" % fa, "f%d.bec2" % fb, w.choice(cand),
+                                w.choice(["front", "end"])])
+    return {"pool": pool, "objs": objs, "ops": ops, "rng": w.getrandbits(32), "share": w.random() < 0.5}
 
 
 def _body_ok(binary, body_off, key, model):
@@ -123,6 +132,7 @@ def run(case):
         lastread = {}   # name -> (object, subset)
         keys_drawn = []
         points = []
+        shared = {}
         nops = 0
         for op in case["ops"]:
             nops += 1
@@ -130,7 +140,15 @@ def run(case):
             if kind == "new":
                 _, f, key, blocks, oi = op
                 n0 = len(rng.draws)
-                bf3 = G.build_bf3(case["objs"][oi], env)
+                if case.get("share"):
+                    # one package object issued to several files (a host re-using its Bf3File)
+                    if oi not in shared:
+                        shared[oi] = G.build_bf3(case["objs"][oi], env)
+                    else:
+                        out.probes["bf3-object-shared-between-files"] += 1
+                    bf3 = shared[oi]
+                else:
+                    bf3 = G.build_bf3(case["objs"][oi], env)
                 blks = []
                 for b in blocks:
                     p = pool[b]
@@ -292,6 +310,50 @@ def run(case):
                              % (got.session_key.hex(), info["key"].hex()))
                 lastread[name] = (got, sub, info["blocks"])
                 out.ev("read", name, sub, [type(b).__name__ for b in got.auth_blocks.values()])
+                continue
+            if kind == "splice_insert":
+                _, na, nb, b, where = op
+                if na not in written or nb not in written:
+                    continue
+                A, B = written[na], written[nb]
+                if b not in A["blocks"]:
+                    continue
+                others = [x for x in B["blocks"] if x in dec_all]
+                if not others:
+                    continue
+                tagA, valA = A["hdr"][A["blocks"].index(b)]
+                hdr2 = list(B["hdr"])
+                hdr2.insert(0 if where == "front" else len(hdr2), (tagA, valA))
+                header = b"BEC2\0" + b"".join(bytes([t, len(v)]) + v for t, v in hdr2) + b"\0\0"
+                body = B["obj"].bf3file.to_binary(len(header), B["key"])
+                fs.restart()
+                fs.files["inserted.bec2"] = files.render(B["head"], header + body, b"\r\n" in fs.files[nb])
+                out.fired["splice-insert"] += 1
+                decs = []
+                for x in [b] + others:
+                    if dec_all[x] not in decs:
+                        decs.append(dec_all[x])
+                same = A["key"] == B["key"]
+                sametag = any(pool[x]["t"] == pool[b]["t"] for x in B["blocks"])
+                try:
+                    bf.Bec2File.read_file("inserted.bec2", decs, True)
+                    res = "accepted"
+                except SimCrash:
+                    raise
+                except Exception as e:
+                    res = "rejected:" + type(e).__name__
+                out.ev("splice_insert", b, where, same, sametag, res)
+                if sametag:
+                    out.probes["splice-insert-same-tag"] += 1
+                if not same:
+                    out.probes["splice-different-keys"] += 1
+                    if res == "accepted":
+                        out.fail("C07.splice-accepted", "insert-%s%s" % (pool[b]["t"], "-same-tag" if sametag else ""),
+                                 "a header into which a %s block wrapping %s was inserted (%s; the file's other blocks "
+                                 "wrap %s) was accepted with decryptors for all blocks supplied"
+                                 % (pool[b]["t"], A["key"].hex(), where, B["key"].hex()))
+                    else:
+                        out.probes["splice-rejected"] += 1
                 continue
             if kind == "splice":
                 _, na, nb, b = op
